@@ -99,6 +99,8 @@ func c03(w *core.World, r *core.Report) {
 	ruleDbTracking(w, r)
 	r.Rule("R20.12", "every chunk of a split value is known as such, the last one included: a final chunk taken for a whole value is sent as a RESTORE payload and replaces what the earlier chunks built (shared with C20)", 1)
 	ruleSplitKnownFromFirstChunk(w, r)
+	r.Rule("R03.17", "the full sync waits for every goroutine that replays a part of the snapshot", 2)
+	ruleFullSyncAwaitsEverySender(w, r)
 }
 
 func ruleTypeTables(w *core.World, r *core.Report) {
